@@ -82,6 +82,9 @@ def check(col: Collector, tier: str):
     col.add("C08.R1", vcl.short, "single-binding-site", [f.short for f, _ in sites] == [vcl.short],
             f"define_name is called from {[f.short for f, _ in sites]}; only visit_Call_Lambda may bind names")
 
+    # the receiver's (Python) name is recorded on the code value: one value per call site, or a rename at one site changes another
+    from sa.props._tr import check_code_value_per_call_site
+    check_code_value_per_call_site(col, "C08.R1", repo)
     # ---------------------------------------------------------------- R2 lookup order
     col.floor("C08.R2", 3)
     rid = m.get("resolve_id")
@@ -124,10 +127,21 @@ def check(col: Collector, tier: str):
     for o in sub.obs:
         col.add("C08.R4", o.construct, o.detail, o.ok, o.msg, o.loc)
 
+    # ---------------------------------------------------------------- R7 chained ~ fused: a value cached on a node is re-used only where it is visible
+    from sa.props.c01 import check_cache_guard
+    sub1 = Collector("C08")
+    check_cache_guard(sub1, repo, m)
+    col.floor("C08.R7", 2)
+    for o in sub1.obs:
+        col.add("C08.R7", o.construct, o.detail, o.ok, o.msg + " (a chained Select re-uses the node of the previous stage's value where the fused form "
+                "has a fresh sub-tree: re-use outside the block that computed it puts the statement at a different depth)", o.loc)
     # ---------------------------------------------------------------- R6 metadata values: tuple ~ list, merged job-script dependencies
     from sa.props.c14 import check_ib_fetch_verbatim
     col.floor("C08.R6", 2)
     check_ib_fetch_verbatim(col, "C08.R6", repo)
+    from sa.props._tr import import_obligations
+    import_obligations(col, "C08.R6", "c14", lambda o: o.detail == "name-competes-with-inject-blocks-only",
+                       "two declarations of different kinds and the same name must be accepted wherever along the chain they are attached")
     from sa.props import c15
     sub15 = Collector("C08")
     c15.check(sub15, tier)
